@@ -19,6 +19,7 @@ TS = "qucumber/utils/training_statistics.py"
 OB = "qucumber/observables/observable.py"
 SY = "qucumber/observables/system.py"
 OU = "qucumber/observables/utils.py"
+DA = "qucumber/utils/data.py"
 UN = "qucumber/utils/unitaries.py"
 CX = "qucumber/utils/cplx.py"
 
@@ -209,6 +210,18 @@ MUTANTS = [
     M("c11-dm-autoload-aux-from-hidden", "C11", (DM, 'num_aux=len(state_dict["rbm_am"]["aux_bias"]),', 'num_aux=len(state_dict["rbm_am"]["hidden_bias"]),')),
     M("c11-save-rounds-params", "C11", (NS, "data = {net: getattr(self, net).state_dict() for net in self.networks}", "data = {net: {k: v.float().double() for k, v in getattr(self, net).state_dict().items()} for net in self.networks}")),
     M("c11-modelsaver-mutates-dict", "C11", ("qucumber/callbacks/model_saver.py", "            metadata = self.metadata\n", "            metadata = self.metadata\n            metadata[\"epoch\"] = epoch\n")),
+    # ---- C19
+    M("c19-hilbert-no-reverse", "C19", (NS, "space = ((dim[:, None] & (1 << np.arange(size))) > 0)[:, ::-1]", "space = ((dim[:, None] & (1 << np.arange(size))) > 0)[:, :]")),
+    M("c19-subspace-no-reverse", "C19", (NS, "space = ((num & (1 << np.arange(size))) > 0)[::-1]", "space = ((num & (1 << np.arange(size))) > 0)[:]")),
+    M("c19-little-endian-powers", "C19", (UN, "powers = (2 ** (torch.arange(states.shape[-1], 0, -1) - 1)).to(states)", "powers = (2 ** torch.arange(states.shape[-1])).to(states)")),
+    M("c19-load-data-swapped-columns", "C19", (DA, "target_psi[0] = torch.tensor(target_psi_data[:, 0], dtype=torch.double)\n        target_psi[1] = torch.tensor(target_psi_data[:, 1], dtype=torch.double)",
+                                               "target_psi[0] = torch.tensor(target_psi_data[:, 1], dtype=torch.double)\n        target_psi[1] = torch.tensor(target_psi_data[:, 0], dtype=torch.double)")),
+    M("c19-refbasis-any", "C19", (DA, "        .all(dim=1)", "        .any(dim=1)")),
+    M("c19-max-size-off-by-one", "C19", (NS, "        if size > self.max_size:", "        if size > self.max_size + 1:")),
+    M("c19-dm-imag-negated", "C19", (DA, "data.append(cplx.make_complex(mtx_real, mtx_imag))", "data.append(cplx.make_complex(mtx_real, -mtx_imag))")),
+    M("c19-dm-transposed", "C19", (DA, "data.append(cplx.make_complex(mtx_real, mtx_imag))", "data.append(cplx.make_complex(mtx_real.t(), mtx_imag.t()))")),
+    M("c19-samples-as-int8-wrap", "C19", (DA, '        torch.tensor(np.loadtxt(tr_samples_path, dtype="float32"), dtype=torch.double)\n    )\n\n    if tr_psi_path', '        torch.tensor(np.loadtxt(tr_samples_path, dtype="float32"), dtype=torch.double).flip(0)\n    )\n\n    if tr_psi_path')),
+    M("c19-hilbert-large-size-wrong", "C19", (NS, "            dim = np.arange(2 ** size)\n", "            dim = np.arange(2 ** size)\n            if size > 13:\n                dim = dim ^ 1\n")),
 ]
 
 BENIGN = [
